@@ -391,7 +391,7 @@ def _match_open(toks, k):
     raise ScanError('unbalanced')
 
 
-def find_item(toks, path: str, trait: str | None = None, nth: int = 0):
+def find_item(toks, path: str, trait: str | None = None, nth: int = 0, explicit: bool = False):
     """path: 'name' (file-level item), 'Type::name' (inside an `impl .. Type`), or
     'mod::...::Type::name'.  trait: restrict to `impl Trait for Type` (or 'none' to
     require an inherent impl).  Returns (Item, Block|None)."""
@@ -419,7 +419,7 @@ def find_item(toks, path: str, trait: str | None = None, nth: int = 0):
     rec(lo, hi, segs, blk)
     if len(cands) <= nth:
         raise ScanError('item not found: %s%s' % (path, ' (trait %s)' % trait if trait else ''))
-    if len(cands) > 1 and nth == 0 and trait is None:
+    if len(cands) > 1 and nth == 0 and trait is None and not explicit:
         # ambiguous: prefer inherent impls, else first
         inh = [c for c in cands if c[1] is None or c[1].trait is None]
         if len(inh) == 1:
